@@ -228,6 +228,44 @@ def probeSites : List Bytes := [Fn.eval_expr.rust, Fn.exec_stmt_block.rust]
 
 def runtimeGraph : Graph Fn := { edges := runtimeEdges, guarded := runtimeGuarded }
 
+/-! ### A probe on EVERY path to a descent
+
+`exec_stmt_cond` is annotated as guarded although the `If`/`Loop` arm of `exec_stmt` contains no probe of its
+own: the arm evaluates its condition first, and `eval_expr` probes.  That is an *implicit* dependency — a path
+through the arm that reaches the body without evaluating anything (a condition that needs no evaluation)
+would descend `exec_block_with_flow → exec_stmt → exec_block_with_flow` with no probe at all.  It is made
+explicit here: the source scan lists, for each arm that descends and for every function reached from it, the
+functions called on the *straight-line prefix* (what every execution runs through before it can branch), and
+`mustProbe` decides from that table whether a probe is certain. -/
+
+/-- `mustProbe t guards n f`: every execution of `f` calls a stack probe before it can branch — its
+straight-line prefix (table `t`) calls a guard function, or (fuel `n`) a function that must probe. -/
+def mustProbe (t : List (Bytes × List Bytes)) (guards : List Bytes) : Nat → Bytes → Bool
+  | 0, _ => false
+  | n + 1, f =>
+    match t.find? (fun p => p.1 == f) with
+    | none => false
+    | some p => p.2.any (fun h => guards.contains h || mustProbe t guards n h)
+
+/-- Statement kinds whose arm of `exec_stmt` never descends into a block. -/
+def stmtLeafKinds : List Bytes :=
+  [b!"Assign", b!"AssignExisting", b!"AssignIndex", b!"FunctionDef", b!"Return", b!"Break", b!"Continue",
+   b!"Expression"]
+
+/-- The model frame that stands for the arm of `exec_stmt` executing a statement of kind `k`. -/
+def stmtKindFrame (k : Bytes) : Option Fn :=
+  if k = b!"If" ∨ k = b!"Loop" then some .exec_stmt_cond
+  else if k = b!"Block" then some .exec_stmt_block
+  else if stmtLeafKinds.contains k then some .exec_stmt_leaf
+  else none
+
+/-- The name under which the source scan lists the arm for statement kind `k`. -/
+def armName (k : Bytes) : Bytes := b!"exec_stmt::" ++ k
+
+/-- The evaluator as it would be if the `If`/`Loop` arm could reach its body on some path without a probe. -/
+def runtimeGraphCondUnprobed : Graph Fn :=
+  { edges := runtimeEdges, guarded := fun f => f != .exec_stmt_cond && runtimeGuarded f }
+
 /-- Topological rank of the guard-free part (edges into unguarded functions go down; the guarded
 functions sit on top: only their outgoing edges are constrained). -/
 def runtimeRank : Fn → Nat
